@@ -18,37 +18,37 @@ use vh::{
     sdk, CaseResult, Fail, Run,
 };
 
-const JPEG: &str = "image/jpeg";
+pub const JPEG: &str = "image/jpeg";
 
 // ------------------------------------------------------------------------------------------------
 // targets
 // ------------------------------------------------------------------------------------------------
 
 #[derive(Clone, Copy, PartialEq, Eq, Debug)]
-enum Mode {
+pub enum Mode {
     /// store embedded in the JPEG (re-embedded through `jumbf_io::save_jumbf_to_memory` after mutation)
     Embedded,
     /// store passed next to the unsigned asset (`Reader::with_manifest_data_and_stream`)
     Sidecar,
 }
 
-struct Target {
-    name: String,
-    kind: &'static str,
-    mode: Mode,
+pub struct Target {
+    pub name: String,
+    pub kind: &'static str,
+    pub mode: Mode,
     /// Embedded: the signed JPEG; Sidecar: the asset the store was made for
-    asset: Vec<u8>,
-    store: Vec<u8>,
-    boxes: Vec<BoxInfo>,
-    tab: Vec<u16>,
-    classes: Vec<SpanClass>,
-    ctx: Arc<Context>,
-    base_report: Value,
-    base_verdict: sdk::Verdict,
-    layout: u64,
+    pub asset: Vec<u8>,
+    pub store: Vec<u8>,
+    pub boxes: Vec<BoxInfo>,
+    pub tab: Vec<u16>,
+    pub classes: Vec<SpanClass>,
+    pub ctx: Arc<Context>,
+    pub base_report: Value,
+    pub base_verdict: sdk::Verdict,
+    pub layout: u64,
 }
 
-fn definition(title: &str, ver: u8) -> Value {
+pub fn definition(title: &str, ver: u8) -> Value {
     json!({
         "title": title,
         "claim_version": ver,
@@ -59,7 +59,7 @@ fn definition(title: &str, ver: u8) -> Value {
     })
 }
 
-fn settings(compress: bool) -> Value {
+pub fn settings(compress: bool) -> Value {
     let mut s = sdk::base_settings(true);
     if compress {
         sdk::merge(&mut s, &json!({"core": {"prefer_compress_manifests": true}}));
@@ -67,13 +67,13 @@ fn settings(compress: bool) -> Value {
     s
 }
 
-struct Signed {
-    asset: Vec<u8>,
+pub struct Signed {
+    pub asset: Vec<u8>,
     /// sidecar store bytes when `no_embed`
-    sidecar: Option<Vec<u8>>,
+    pub sidecar: Option<Vec<u8>>,
 }
 
-fn sign(mut b: Builder, alg: &str, src: &[u8], no_embed: bool) -> Result<Signed, String> {
+pub fn sign(mut b: Builder, alg: &str, src: &[u8], no_embed: bool) -> Result<Signed, String> {
     if no_embed {
         b.set_no_embed(true);
     }
@@ -85,7 +85,7 @@ fn sign(mut b: Builder, alg: &str, src: &[u8], no_embed: bool) -> Result<Signed,
     Ok(Signed { asset: out.into_inner(), sidecar: if no_embed { Some(data) } else { None } })
 }
 
-fn builder(ctx: &Arc<Context>, def: &Value, intent: Option<BuilderIntent>) -> Result<Builder, String> {
+pub fn builder(ctx: &Arc<Context>, def: &Value, intent: Option<BuilderIntent>) -> Result<Builder, String> {
     let mut b = Builder::from_shared_context(ctx)
         .with_definition(def.to_string())
         .map_err(|e| format!("definition: {e}"))?;
@@ -95,7 +95,7 @@ fn builder(ctx: &Arc<Context>, def: &Value, intent: Option<BuilderIntent>) -> Re
     Ok(b)
 }
 
-fn pseudo_thumb(n: usize) -> Vec<u8> {
+pub fn pseudo_thumb(n: usize) -> Vec<u8> {
     // not decoded by anything (thumbnail generation is off): JPEG magic + counter bytes
     let mut v = vec![0xff, 0xd8, 0xff, 0xe0];
     v.extend((0..n).map(|i| (i * 7 + 3) as u8));
@@ -103,10 +103,10 @@ fn pseudo_thumb(n: usize) -> Vec<u8> {
     v
 }
 
-const KINDS: [&str; 6] = ["single", "chain", "redact", "compressed", "v1box", "ps256"];
+pub const KINDS: [&str; 6] = ["single", "chain", "redact", "compressed", "v1box", "ps256"];
 
 /// Build the signed asset (+ sidecar store) for one store kind.
-fn build_kind(kind: &str, no_embed: bool) -> Result<(Signed, Arc<Context>), String> {
+pub fn build_kind(kind: &str, no_embed: bool) -> Result<(Signed, Arc<Context>), String> {
     let src = sdk::fixture("no_manifest.jpg");
     let ctx = Arc::new(sdk::context_with(&settings(kind == "compressed")));
     let create = Some(BuilderIntent::Create(DigitalSourceType::Empty));
@@ -206,7 +206,7 @@ fn build_kind(kind: &str, no_embed: bool) -> Result<(Signed, Arc<Context>), Stri
     Ok((s, ctx))
 }
 
-fn layout_digest(boxes: &[BoxInfo]) -> u64 {
+pub fn layout_digest(boxes: &[BoxInfo]) -> u64 {
     let v: Vec<(usize, usize, usize, [u8; 4], usize, Option<(usize, usize, usize, usize)>)> = boxes
         .iter()
         .map(|b| {
@@ -223,7 +223,7 @@ fn layout_digest(boxes: &[BoxInfo]) -> u64 {
     vh::digest(&v)
 }
 
-fn read_store(t_mode: Mode, ctx: &Arc<Context>, asset: &[u8], store: &[u8]) -> Result<Result<Reader, String>, String> {
+pub fn read_store(t_mode: Mode, ctx: &Arc<Context>, asset: &[u8], store: &[u8]) -> Result<Result<Reader, String>, String> {
     // outer Err = the mutant cannot be embedded (no asset to read)
     match t_mode {
         Mode::Embedded => {
@@ -248,7 +248,7 @@ fn read_store(t_mode: Mode, ctx: &Arc<Context>, asset: &[u8], store: &[u8]) -> R
     }
 }
 
-fn build_target(kind: &'static str, mode: Mode) -> Result<Target, String> {
+pub fn build_target(kind: &'static str, mode: Mode) -> Result<Target, String> {
     let (signed, ctx) = build_kind(kind, mode == Mode::Sidecar)?;
     let (asset, store) = match mode {
         Mode::Embedded => {
@@ -262,7 +262,7 @@ fn build_target(kind: &'static str, mode: Mode) -> Result<Target, String> {
 
 /// Analyse a signed store: box tree, class table, baseline report (also used by the worker processes, which
 /// load the stores the parent built).
-fn target_from(kind: &'static str, mode: Mode, ctx: Arc<Context>, asset: Vec<u8>, store: Vec<u8>) -> Result<Target, String> {
+pub fn target_from(kind: &'static str, mode: Mode, ctx: Arc<Context>, asset: Vec<u8>, store: Vec<u8>) -> Result<Target, String> {
     let boxes = jw::walk_store(&store)?;
     let (tab, classes) = jw::class_table(&boxes, store.len());
     let name = format!("{kind}/{}", if mode == Mode::Embedded { "jpeg" } else { "sidecar" });
@@ -302,22 +302,22 @@ fn target_from(kind: &'static str, mode: Mode, ctx: Arc<Context>, asset: Vec<u8>
 // ------------------------------------------------------------------------------------------------
 
 #[derive(Clone, Debug, Serialize, Deserialize, PartialEq, Eq, Hash)]
-enum Mutation {
+pub enum Mutation {
     Flip { pos: usize, bit: u8 },
     Edit(jw::Edit),
 }
 
 #[derive(Clone, Debug, Serialize, Deserialize, PartialEq, Eq, Hash)]
-struct Case {
+pub struct Case {
     /// "<kind>/<jpeg|sidecar>"
-    target: String,
+    pub target: String,
     /// digest of the box layout the offsets refer to (stores are rebuilt per run; URNs, salts and signatures
     /// differ between runs but all lengths are fixed)
-    layout: u64,
-    m: Mutation,
+    pub layout: u64,
+    pub m: Mutation,
 }
 
-fn class_detail(c: &SpanClass, boxes: &[BoxInfo], pos: usize) -> String {
+pub fn class_detail(c: &SpanClass, boxes: &[BoxInfo], pos: usize) -> String {
     // span class name refined by the content box type for assertion payloads (bfdb / bidb / cbor / json / uuid)
     match c {
         SpanClass::AssertionPayload { .. } | SpanClass::DataboxPayload | SpanClass::CredentialPayload => {
@@ -331,7 +331,7 @@ fn class_detail(c: &SpanClass, boxes: &[BoxInfo], pos: usize) -> String {
 
 /// Which part of a manifest the byte belongs to: store-top, manifest-desc, assertions, claim, signature,
 /// databoxes, credentials, compressed, other.
-fn region(boxes: &[BoxInfo], pos: usize) -> String {
+pub fn region(boxes: &[BoxInfo], pos: usize) -> String {
     let Some(i) = jw::box_at(boxes, pos) else {
         return "other".into();
     };
@@ -363,7 +363,7 @@ fn region(boxes: &[BoxInfo], pos: usize) -> String {
     }
 }
 
-fn hashed_class(c: &SpanClass) -> bool {
+pub fn hashed_class(c: &SpanClass) -> bool {
     c.is_strict()
         || matches!(
             c,
@@ -376,7 +376,7 @@ fn hashed_class(c: &SpanClass) -> bool {
 /// The report with the arrays of validation results put in a canonical order: the order in which status
 /// entries and ingredient deltas are listed follows the order of validation steps (assertion-store order),
 /// it is not manifest content. Everything else is compared as is.
-fn report(r: &Reader) -> Value {
+pub fn report(r: &Reader) -> Value {
     fn sort_arr(v: &mut Value) {
         if let Value::Array(a) = v {
             a.sort_by_key(|x| x.to_string());
@@ -401,7 +401,7 @@ fn report(r: &Reader) -> Value {
     v
 }
 
-fn first_diff(a: &Value, b: &Value, path: &str) -> Option<String> {
+pub fn first_diff(a: &Value, b: &Value, path: &str) -> Option<String> {
     if a == b {
         return None;
     }
@@ -447,7 +447,7 @@ fn first_diff(a: &Value, b: &Value, path: &str) -> Option<String> {
 
 /// Short stable token for a report difference: last key of the path + kind of change
 /// (`/json/manifests/urn…/ingredients[0]/thumbnail: removed` -> `thumbnail-removed`).
-fn diff_token(d: &str) -> String {
+pub fn diff_token(d: &str) -> String {
     let (path, change) = d.split_once(": ").unwrap_or((d, ""));
     let last = path.rsplit('/').next().unwrap_or("");
     let key: String = last.chars().take_while(|c| *c != '[').filter(|c| c.is_ascii_alphanumeric() || *c == '_').take(24).collect();
@@ -463,7 +463,7 @@ fn diff_token(d: &str) -> String {
     format!("{}-{kind}", if key.is_empty() { "root" } else { &key })
 }
 
-fn describe(t: &Target, m: &Mutation) -> (String, usize, usize) {
+pub fn describe(t: &Target, m: &Mutation) -> (String, usize, usize) {
     // (text, start, end) of the changed span in the original
     match m {
         Mutation::Flip { pos, bit } => (format!("flip bit {bit} of byte {pos}"), *pos, pos + 1),
@@ -474,30 +474,49 @@ fn describe(t: &Target, m: &Mutation) -> (String, usize, usize) {
     }
 }
 
-/// Everything one evaluation produces (collected in worker processes, applied to the `Run` by the parent).
-struct Outcome {
-    classes: Vec<String>,
-    nontrivial: bool,
-    res: CaseResult,
-}
-
-struct Sink {
-    classes: std::cell::RefCell<Vec<String>>,
-    nt: std::cell::Cell<bool>,
-}
-
-impl Sink {
-    fn count(&self, c: &str) {
-        self.classes.borrow_mut().push(c.to_string());
+/// The mutated store, or None when the mutation does not apply to this store.
+pub fn apply_mutation(t: &Target, m: &Mutation) -> Option<Vec<u8>> {
+    match m {
+        Mutation::Flip { pos, bit } => {
+            if *pos >= t.store.len() || *bit > 7 {
+                return None;
+            }
+            let mut v = t.store.clone();
+            v[*pos] ^= 1 << bit;
+            Some(v)
+        }
+        Mutation::Edit(e) => jw::apply_edit(&t.store, &t.boxes, e),
     }
 }
 
-const LAYOUT_CHANGED: &str = "skipped_layout_changed";
+/// Everything one evaluation produces (collected in worker processes, applied to the `Run` by the parent).
+pub struct Outcome {
+    pub classes: Vec<String>,
+    pub nontrivial: bool,
+    pub res: CaseResult,
+}
+
+#[derive(Default)]
+pub struct Sink {
+    pub classes: std::cell::RefCell<Vec<String>>,
+    pub nt: std::cell::Cell<bool>,
+}
+
+impl Sink {
+    pub fn count(&self, c: &str) {
+        self.classes.borrow_mut().push(c.to_string());
+    }
+    pub fn into_outcome(self, res: CaseResult) -> Outcome {
+        Outcome { classes: self.classes.into_inner(), nontrivial: self.nt.get(), res }
+    }
+}
+
+pub const LAYOUT_CHANGED: &str = "skipped_layout_changed";
 
 fn judge(targets: &BTreeMap<String, Target>, selftest: bool, c: &Case) -> Outcome {
-    let sink = Sink { classes: Default::default(), nt: Default::default() };
+    let sink = Sink::default();
     let res = judge_inner(&sink, targets, selftest, c);
-    Outcome { classes: sink.classes.into_inner(), nontrivial: sink.nt.get(), res }
+    sink.into_outcome(res)
 }
 
 fn judge_inner(run: &Sink, targets: &BTreeMap<String, Target>, selftest: bool, c: &Case) -> CaseResult {
@@ -509,22 +528,9 @@ fn judge_inner(run: &Sink, targets: &BTreeMap<String, Target>, selftest: bool, c
         run.count(LAYOUT_CHANGED);
         return Ok(());
     }
-    let mutated = match &c.m {
-        Mutation::Flip { pos, bit } => {
-            if *pos >= t.store.len() || *bit > 7 {
-                return Ok(());
-            }
-            let mut v = t.store.clone();
-            v[*pos] ^= 1 << bit;
-            v
-        }
-        Mutation::Edit(e) => match jw::apply_edit(&t.store, &t.boxes, e) {
-            Some(v) => v,
-            None => {
-                run.count("edit_not_applicable");
-                return Ok(());
-            }
-        },
+    let Some(mutated) = apply_mutation(t, &c.m) else {
+        run.count("edit_not_applicable");
+        return Ok(());
     };
     if mutated == t.store {
         run.count("edit_is_noop");
@@ -624,7 +630,7 @@ fn judge_inner(run: &Sink, targets: &BTreeMap<String, Target>, selftest: bool, c
     Ok(())
 }
 
-fn cases_for(t: &Target, run: &Run, thorough_all_bits: bool, flips_budget: usize) -> Vec<Case> {
+pub fn cases_for(t: &Target, run: &Run, thorough_all_bits: bool, flips_budget: usize) -> Vec<Case> {
     let mut v = vec![];
     let mk = |m: Mutation| Case { target: t.name.clone(), layout: t.layout, m };
     for e in jw::all_structural_edits(&t.store, &t.boxes, !run.quick()) {
@@ -685,18 +691,16 @@ fn cases_for(t: &Target, run: &Run, thorough_all_bits: bool, flips_budget: usize
 // the normal driver.
 // ------------------------------------------------------------------------------------------------
 
-const WORK: &str = "/verif/work/C02";
-
 #[derive(Serialize, Deserialize, Default)]
-struct WorkerOut {
-    class_names: Vec<String>,
+pub struct WorkerOut {
+    pub class_names: Vec<String>,
     /// (case index, non-trivial, class ids)
-    recs: Vec<(u32, bool, Vec<u16>)>,
+    pub recs: Vec<(u32, bool, Vec<u16>)>,
     /// (case index, signature, what)
-    fails: Vec<(u32, String, String)>,
+    pub fails: Vec<(u32, String, String)>,
 }
 
-fn mode_name(m: Mode) -> &'static str {
+pub fn mode_name(m: Mode) -> &'static str {
     if m == Mode::Embedded {
         "jpeg"
     } else {
@@ -704,28 +708,28 @@ fn mode_name(m: Mode) -> &'static str {
     }
 }
 
-fn save_targets(targets: &BTreeMap<String, Target>) -> Result<(), String> {
-    let _ = std::fs::remove_dir_all(WORK);
-    std::fs::create_dir_all(WORK).map_err(|e| e.to_string())?;
+pub fn save_targets(dir: &str, targets: &BTreeMap<String, Target>) -> Result<(), String> {
+    let _ = std::fs::remove_dir_all(dir);
+    std::fs::create_dir_all(dir).map_err(|e| e.to_string())?;
     let mut list = vec![];
     for (n, t) in targets.values().enumerate() {
-        std::fs::write(format!("{WORK}/t{n}.asset"), &t.asset).map_err(|e| e.to_string())?;
-        std::fs::write(format!("{WORK}/t{n}.store"), &t.store).map_err(|e| e.to_string())?;
+        std::fs::write(format!("{dir}/t{n}.asset"), &t.asset).map_err(|e| e.to_string())?;
+        std::fs::write(format!("{dir}/t{n}.store"), &t.store).map_err(|e| e.to_string())?;
         list.push(json!({"n": n, "kind": t.kind, "mode": mode_name(t.mode)}));
     }
-    std::fs::write(format!("{WORK}/targets.json"), Value::Array(list).to_string()).map_err(|e| e.to_string())
+    std::fs::write(format!("{dir}/targets.json"), Value::Array(list).to_string()).map_err(|e| e.to_string())
 }
 
-fn load_targets() -> Result<BTreeMap<String, Target>, String> {
-    let txt = std::fs::read_to_string(format!("{WORK}/targets.json")).map_err(|e| e.to_string())?;
+pub fn load_targets(dir: &str) -> Result<BTreeMap<String, Target>, String> {
+    let txt = std::fs::read_to_string(format!("{dir}/targets.json")).map_err(|e| e.to_string())?;
     let list: Vec<Value> = serde_json::from_str(&txt).map_err(|e| e.to_string())?;
     let mut out = BTreeMap::new();
     for e in list {
         let n = e["n"].as_u64().unwrap_or(0);
         let kind = KINDS.iter().copied().find(|k| Some(*k) == e["kind"].as_str()).ok_or("bad kind")?;
         let mode = if e["mode"] == "jpeg" { Mode::Embedded } else { Mode::Sidecar };
-        let asset = std::fs::read(format!("{WORK}/t{n}.asset")).map_err(|e| e.to_string())?;
-        let store = std::fs::read(format!("{WORK}/t{n}.store")).map_err(|e| e.to_string())?;
+        let asset = std::fs::read(format!("{dir}/t{n}.asset")).map_err(|e| e.to_string())?;
+        let store = std::fs::read(format!("{dir}/t{n}.store")).map_err(|e| e.to_string())?;
         let ctx = Arc::new(sdk::context_with(&settings(kind == "compressed")));
         let t = target_from(kind, mode, ctx, asset, store)?;
         out.insert(t.name.clone(), t);
@@ -733,31 +737,28 @@ fn load_targets() -> Result<BTreeMap<String, Target>, String> {
     Ok(out)
 }
 
-fn all_cases(run: &Run, targets: &BTreeMap<String, Target>) -> Vec<Case> {
-    let mut cases = vec![];
-    for t in targets.values() {
-        cases.extend(cases_for(t, run, !run.quick(), 4000));
-    }
-    cases
-}
+pub type Targets = BTreeMap<String, Target>;
+pub type Table = std::collections::HashMap<u64, (bool, Vec<String>, CaseResult)>;
 
-fn worker(run: &Run, spec: &str, selftest: bool) -> ! {
+/// Body of a worker process: load the stores the parent wrote, regenerate the case list, evaluate every
+/// n-th case and write the outcomes to `<dir>/out-<i>.json`.
+pub fn worker_main(run: &Run, dir: &str, spec: &str, gen: &dyn Fn(&Run, &Targets) -> Vec<Case>, judge: &dyn Fn(&Targets, &Case) -> Outcome) -> ! {
     let (i, n) = spec.split_once('/').map(|(a, b)| (a.parse::<usize>().unwrap_or(0), b.parse::<usize>().unwrap_or(1))).unwrap_or((0, 1));
-    let targets = match load_targets() {
+    let targets = match load_targets(dir) {
         Ok(t) => t,
         Err(e) => {
             eprintln!("worker {spec}: {e}");
             std::process::exit(3);
         }
     };
-    let cases = all_cases(run, &targets);
+    let cases = gen(run, &targets);
     let trace = std::env::var("VERIF_TRACE").is_ok();
     let mut out = WorkerOut::default();
     for (k, c) in cases.iter().enumerate() {
         if k % n != i {
             continue;
         }
-        let o = judge(&targets, selftest, c);
+        let o = judge(&targets, c);
         let ids: Vec<u16> = o
             .classes
             .iter()
@@ -778,24 +779,123 @@ fn worker(run: &Run, spec: &str, selftest: bool) -> ! {
         }
     }
     let txt = serde_json::to_string(&out).unwrap_or_default();
-    if std::fs::write(format!("{WORK}/out-{i}.json"), txt).is_err() {
+    if std::fs::write(format!("{dir}/out-{i}.json"), txt).is_err() {
         std::process::exit(3);
     }
     std::process::exit(0);
+}
+
+/// Parent side: write the stores, run `procs` copies of this binary as workers, collect the outcome of
+/// every case (keyed by case digest). An empty table means "evaluate in this process".
+pub fn evaluate_sharded(run: &Run, dir: &str, env_key: &str, procs: usize, targets: &Targets, cases: &[Case]) -> Table {
+    let mut table: Table = Default::default();
+    let n = std::env::var("VERIF_PROCS").ok().and_then(|v| v.parse().ok()).unwrap_or(procs).max(1);
+    let mut ok = save_targets(dir, targets).is_ok();
+    let mut kids = vec![];
+    match (ok, std::env::current_exe()) {
+        (true, Ok(exe)) => {
+            for i in 0..n {
+                match std::process::Command::new(&exe)
+                    .arg(if run.quick() { "quick" } else { "thorough" })
+                    .env(env_key, format!("{i}/{n}"))
+                    .stdout(std::process::Stdio::null())
+                    .spawn()
+                {
+                    Ok(c) => kids.push(c),
+                    Err(_) => ok = false,
+                }
+            }
+        }
+        _ => ok = false,
+    }
+    for mut k in kids {
+        match k.wait() {
+            Ok(st) if st.success() => {}
+            _ => ok = false,
+        }
+    }
+    if ok {
+        for i in 0..n {
+            let parsed: Option<WorkerOut> = std::fs::read_to_string(format!("{dir}/out-{i}.json")).ok().and_then(|t| serde_json::from_str(&t).ok());
+            let Some(w) = parsed else {
+                ok = false;
+                break;
+            };
+            let mut fails: std::collections::HashMap<u32, (String, String)> = w.fails.into_iter().map(|(k, s, t)| (k, (s, t))).collect();
+            for (k, nt, ids) in w.recs {
+                let Some(c) = cases.get(k as usize) else {
+                    ok = false;
+                    continue;
+                };
+                let classes = ids.iter().filter_map(|i| w.class_names.get(*i as usize).cloned()).collect();
+                let res = match fails.remove(&k) {
+                    Some((s, t)) => Err(Fail::new(s, t)),
+                    None => Ok(()),
+                };
+                table.insert(vh::digest(c), (nt, classes, res));
+            }
+        }
+    }
+    if !ok {
+        run.inconclusive("worker processes failed; cases are evaluated in this process");
+        table.clear();
+    } else if table.len() != cases.iter().map(vh::digest).collect::<std::collections::HashSet<_>>().len() {
+        run.inconclusive("worker processes did not return an outcome for every case");
+    }
+    let _ = std::fs::remove_dir_all(dir);
+    table
+}
+
+/// Feed the pre-computed outcomes through the normal enumeration driver (regression / replay cases and
+/// anything missing from the table are evaluated here with `judge`).
+pub fn drive_table(run: &Run, check: &str, cases: Vec<Case>, table: Table, judge: &(dyn Fn(&Case) -> Outcome + Sync)) {
+    let table = std::sync::Mutex::new(table);
+    run.drive_enum_par(check, cases, 4, |c| {
+        let pre = table.lock().unwrap().remove(&vh::digest(c));
+        let (nt, classes, res) = match pre {
+            Some(x) => x,
+            None => {
+                let o = judge(c);
+                (o.nontrivial, o.classes, o.res)
+            }
+        };
+        for cl in &classes {
+            run.count(cl);
+            if cl == LAYOUT_CHANGED {
+                run.inconclusive(format!("{}: store layout differs from the one the case was recorded for", c.target));
+            }
+        }
+        if nt {
+            run.nontrivial(c);
+        }
+        res
+    });
+}
+
+const WORK: &str = "/verif/work/C02";
+const WORKER_ENV: &str = "VERIF_C02_WORKER";
+
+fn all_cases(run: &Run, targets: &Targets) -> Vec<Case> {
+    let mut cases = vec![];
+    for t in targets.values() {
+        cases.extend(cases_for(t, run, !run.quick(), 4000));
+    }
+    cases
 }
 
 fn main() {
     vh::quiet_panics();
     let run = Run::from_args("C02", "exploration");
     let selftest = std::env::var("VERIF_SELFTEST").map(|v| v == "1").unwrap_or(false);
-    if let Ok(spec) = std::env::var("VERIF_C02_WORKER") {
-        worker(&run, &spec, selftest);
+    if let Ok(spec) = std::env::var(WORKER_ENV) {
+        worker_main(&run, WORK, &spec, &all_cases, &|t, c| judge(t, selftest, c));
     }
     run.set_rule("cases = (signed store, mutation). Stores: single v2 manifest (CBOR, JSON and embedded-file assertions, ed25519), ingredient chain D<-B<-A plus two components (ed25519/ps256/es256, v1 and v2 claims), update manifest with a redaction, Brotli-compressed box-hashed manifest, v1 claim with a data box (es256), plain v1 ps256; each embedded in a JPEG and as sidecar. Mutations: single bit flips (quick: every byte of box headers, description boxes, COSE framing/signature and claim CBOR, a quarter of COSE protected, seeded sample of the rest; thorough: every bit of every byte) and JUMBF structure edits (sibling swap, duplicate, delete, cross-manifest copy, label character, UUID byte, toggle bits, length field +-n with/without fixed parents, XLBox header, LBox=0, inserted free/unknown/cbor/json boxes). Non-trivial = the changed span touches bytes that a hash or the signature commits to (claim CBOR, assertion/databox/credential content, COSE protected/signature, description label/uuid/salt, compressed payload).");
     run.assume("the original stores are produced by the SDK's own Builder and read back as Trusted with the fixture trust anchors");
     run.assume("two reads of identical bytes give identical reports apart from validation_time and the listing order of validation status entries / ingredient deltas (checked once per store)");
     run.assume("re-embedding a same-length store through jumbf_io::save_jumbf_to_memory changes only the store bytes of the JPEG (checked once per store)");
     run.assume("a read that panics is counted as a failed read (robustness is judged by other properties)");
+    run.assume("the payload of a compressed (brob) manifest box is opaque to the harness (no Brotli decoder available): flips inside it are judged by the three-way rule only");
 
     let quick_targets: Vec<(&'static str, Mode)> = vec![
         ("single", Mode::Embedded),
@@ -806,7 +906,7 @@ fn main() {
     ];
     let all_targets: Vec<(&'static str, Mode)> = KINDS.iter().flat_map(|k| [(*k, Mode::Embedded), (*k, Mode::Sidecar)]).collect();
     let wanted = if run.replay.is_some() || !run.quick() { all_targets } else { quick_targets };
-    let mut targets: BTreeMap<String, Target> = BTreeMap::new();
+    let mut targets: Targets = BTreeMap::new();
     for (k, m) in wanted {
         match vh::catch(|| build_target(k, m)) {
             Ok(Ok(t)) => {
@@ -833,87 +933,8 @@ fn main() {
     for t in targets.values() {
         run.count_n(&format!("cases:{}", t.name), cases.iter().filter(|c| c.target == t.name).count() as u64);
     }
-
-    // ---- evaluate in worker processes --------------------------------------------------------------
-    let mut table: std::collections::HashMap<u64, (bool, Vec<String>, CaseResult)> = std::collections::HashMap::new();
-    if run.replay.is_none() {
-        let n = std::env::var("VERIF_PROCS").ok().and_then(|v| v.parse().ok()).unwrap_or(run.scale(8usize, 16usize)).max(1);
-        let mut ok = save_targets(&targets).is_ok();
-        let exe = std::env::current_exe().ok();
-        let mut kids = vec![];
-        if let (true, Some(exe)) = (ok, exe) {
-            for i in 0..n {
-                match std::process::Command::new(&exe)
-                    .arg(if run.quick() { "quick" } else { "thorough" })
-                    .env("VERIF_C02_WORKER", format!("{i}/{n}"))
-                    .stdout(std::process::Stdio::null())
-                    .spawn()
-                {
-                    Ok(c) => kids.push(c),
-                    Err(_) => ok = false,
-                }
-            }
-        } else {
-            ok = false;
-        }
-        for mut k in kids {
-            match k.wait() {
-                Ok(st) if st.success() => {}
-                _ => ok = false,
-            }
-        }
-        if ok {
-            for i in 0..n {
-                let parsed: Option<WorkerOut> = std::fs::read_to_string(format!("{WORK}/out-{i}.json")).ok().and_then(|t| serde_json::from_str(&t).ok());
-                let Some(w) = parsed else {
-                    ok = false;
-                    break;
-                };
-                let mut fails: std::collections::HashMap<u32, (String, String)> = w.fails.into_iter().map(|(k, s, t)| (k, (s, t))).collect();
-                for (k, nt, ids) in w.recs {
-                    let Some(c) = cases.get(k as usize) else {
-                        ok = false;
-                        continue;
-                    };
-                    let classes = ids.iter().filter_map(|i| w.class_names.get(*i as usize).cloned()).collect();
-                    let res = match fails.remove(&k) {
-                        Some((s, t)) => Err(Fail::new(s, t)),
-                        None => Ok(()),
-                    };
-                    table.insert(vh::digest(c), (nt, classes, res));
-                }
-            }
-        }
-        if !ok {
-            run.inconclusive("worker processes failed; cases are evaluated in this process");
-            table.clear();
-        } else if table.len() != cases.iter().map(vh::digest).collect::<std::collections::HashSet<_>>().len() {
-            run.inconclusive("worker processes did not return an outcome for every case");
-        }
-        let _ = std::fs::remove_dir_all(WORK);
-    }
-    let table = std::sync::Mutex::new(table);
-    run.drive_enum_par("store_mutation", cases, 4, |c| {
-        let pre = table.lock().unwrap().remove(&vh::digest(c));
-        let (nt, classes, res) = match pre {
-            Some(x) => x,
-            None => {
-                // regression / replay cases, duplicates, or fall-back when the workers failed
-                let o = judge(&targets, selftest, c);
-                (o.nontrivial, o.classes, o.res)
-            }
-        };
-        for cl in &classes {
-            run.count(cl);
-            if cl == LAYOUT_CHANGED {
-                run.inconclusive(format!("{}: store layout differs from the one the case was recorded for", c.target));
-            }
-        }
-        if nt {
-            run.nontrivial(c);
-        }
-        res
-    });
+    let table = if run.replay.is_none() { evaluate_sharded(&run, WORK, WORKER_ENV, run.scale(8, 16), &targets, &cases) } else { Default::default() };
+    drive_table(&run, "store_mutation", cases, table, &|c| judge(&targets, selftest, c));
     if !run.quick() {
         // every bit of every byte of the listed stores was flipped
         run.set_exhaustive(true);
